@@ -178,6 +178,7 @@ theorem initEv_k (s : State) (e f m : Nat) (o : Bool) (h : Inv s) : KProv s (ini
   rename_i he
   have ha' : (s.evs e).alive = true := by simpa using ha
   have he' : (s.evs e).enabled = false := by simpa using he
+  split; · exact KProv.refl s
   refine KProv.trans ?_ (setEv_k _ _ _)
   split
   · exact KProv.refl s
@@ -233,6 +234,8 @@ theorem act_sync (s : State) (a : Act) (h : Inv s) (hs : SyncInv s) : SyncInv (a
   | setR f b => exact hs.step h (setReady_k s f _ _ _)
   | setW f b => exact hs.step h (setReady_k s f _ _ _)
   | oob f => exact hs.step h (setReady_k s f _ _ _)
+  | arm k => exact hs
+  | post k => exact hs
 
 theorem runScript_sync (sc : List Act) : ∀ s : State, Inv s → SyncInv s → SyncInv (runScript s sc) := by
   induction sc with
@@ -295,6 +298,8 @@ theorem act_mono (s : State) (a : Act) (h : Inv s) (hb : (act s a).1.breach = fa
   | setR f b => rw [← (setReady_k s f _ _ _).breach]; exact hb
   | setW f b => rw [← (setReady_k s f _ _ _).breach]; exact hb
   | oob f => rw [← (setReady_k s f _ _ _).breach]; exact hb
+  | arm k => exact hb
+  | post k => exact hb
 
 theorem runScript_mono (sc : List Act) : ∀ s : State, Inv s → (runScript s sc).breach = false → s.breach = false := by
   induction sc with
@@ -387,6 +392,39 @@ theorem removeInvalid_sync (fds : List Nat) : ∀ s : State, Inv s → SyncInv s
     · exact ih _ h hs
     · exact ih _ (disableAll_inv _ s h) (disableAll_sync _ s h hs)
 
+theorem runScripts_sync (scs : List (List Act)) : ∀ s : State, Inv s → SyncInv s → SyncInv (runScripts s scs) := by
+  unfold runScripts
+  induction scs with
+  | nil => intro s _ hs; exact hs
+  | cons sc rest ih => intro s h hs; exact ih _ (runScript_inv sc s h) (runScript_sync sc s h hs)
+
+theorem runScripts_mono (scs : List (List Act)) :
+    ∀ s : State, Inv s → (runScripts s scs).breach = false → s.breach = false := by
+  unfold runScripts
+  induction scs with
+  | nil => intro s _ hb; exact hb
+  | cons sc rest ih => intro s h hb; exact runScript_mono sc s h (ih _ (runScript_inv sc s h) hb)
+
+/-- the state in which the dispatch of a whole turn starts (after the timer callbacks) carries everything
+the dispatch needs, for the snapshot taken at the wait -/
+theorem passAll_after_timers (s : State) (tms : List (List Act)) (ready : List (Nat × Nat)) (h : Inv s) (hs : SyncInv s) :
+    PassAll (waitOf s ready) s (runScripts s tms) :=
+  ⟨runScripts_inv tms s h, (passInv_start s ready).step (runScripts_prov tms s), runScripts_sync tms s h hs,
+   fun hb => (passSync_start s ready (hs hb)).step (passInv_start s ready) (runScripts_prov tms s),
+   runScripts_mono tms s h⟩
+
+theorem loopPass_sync (s : State) (tms : List (List Act)) (ready : List (Nat × Nat)) (nx : List (List Act))
+    (h : Inv s) (hs : SyncInv s) : SyncInv (loopPass s tms ready nx) := by
+  unfold loopPass
+  have A := foldl_dispatch_all (waitOf s ready) s ready _ (fun _ hx => hx) (passAll_after_timers s tms ready h hs)
+  exact runScripts_sync nx _ A.inv A.sy
+
+theorem loopBadf_sync (s : State) (tms : List (List Act)) (fds : List Nat) (nx : List (List Act))
+    (h : Inv s) (hs : SyncInv s) : SyncInv (loopBadf s tms fds nx) := by
+  unfold loopBadf
+  have h1 := runScripts_inv tms s h
+  exact runScripts_sync nx _ (removeInvalid_inv fds _ h1) (removeInvalid_sync fds _ h1 (runScripts_sync tms s h hs))
+
 theorem step_sync (s : State) (st : Step) (h : Inv s) (hs : SyncInv s) : SyncInv (step s st) := by
   cases st with
   | newEv sc =>
@@ -394,6 +432,11 @@ theorem step_sync (s : State) (st : Step) (h : Inv s) (hs : SyncInv s) : SyncInv
   | api a => exact act_sync s a h hs
   | pass be r => exact pass_sync s r h hs
   | badfPass fds => exact removeInvalid_sync fds s h hs
+  | loop be tms r nx => exact loopPass_sync s tms r nx h hs
+  | loopBadf trig tms fds nx => exact loopBadf_sync s tms fds nx h hs
+  | defer nx => exact runScripts_sync nx s h hs
+
+theorem initL_sync (L : Nat) : SyncInv (initL L) := fun _ => ⟨by simp [initL], by simp [initL], by simp [initL]⟩
 
 theorem init_sync : SyncInv init := fun _ => ⟨by simp [init], by simp [init], by simp [init]⟩
 
